@@ -16,7 +16,7 @@ RULE = ('TLC enumerates shapes x fills (real, complex, rank-deficient) x every s
 
 def runs(tier):
     q = tier == 'quick'
-    base = dict(MaxD=3 if q else 4, MaxDB=1, DimsR={1, 2, 3} if q else {1, 2, 3}, DimsC={1}, RanksS={1, 2, 3}, Seeds={1},
+    base = dict(MaxD=3 if q else 4, MaxDB=1, DimsR={1, 2, 3} if q else {2, 3}, DimsC={1}, RanksS={1, 2, 3}, Seeds={1},
                 MaxDepth=1, EmitAll=False, Vias={'matmul'}, QL=1, OWs={False, True}, Lean=True, IslLevel=1 if q else 2)
     out = []
     out.append(dict(name='gen', constants=dict(base, Scenarios={'single'}, Ops={'Svd', 'Pinv'},
